@@ -1,6 +1,7 @@
 package props
 
 import (
+	"sort"
 	"errors"
 	"fmt"
 	"strings"
@@ -9,6 +10,7 @@ import (
 	"github.com/go-openapi/validate"
 
 	"verif/harness/lib"
+	"verif/harness/sut"
 )
 
 // C20 — results combine as ordered sets of messages with additive match counts.
@@ -84,9 +86,19 @@ func (p *c20) Run(w *lib.Worker, idx int, r *lib.Rand) lib.Case {
 		}
 		mod[i] = &mres{}
 	}
+	// one case in four draws its messages from 72 texts and fills pooled operands with up to 40 messages, re-adding
+	// early ones at the end: lists of more than a handful of messages (and pooled results which had a long list in an
+	// earlier life) are where size-dependent de-duplication would live
+	pool, wide := c20Pool, idx%4 == 1
+	if wide {
+		pool = append([]string{}, c20Pool...)
+		for k := 0; k < 60; k++ {
+			pool = append(pool, fmt.Sprintf("m%d in body is invalid", k))
+		}
+	}
 	var trace []string
 	nontrivial := false
-	pooledMerges := 0
+	pooledMerges, pooledLong := 0, 0
 	validate.VerifReset()
 	validate.VerifConfigure(validate.VerifConfig{Track: true, Poison: idx%2 == 0})
 	defer validate.VerifConfigure(validate.VerifConfig{})
@@ -155,9 +167,16 @@ func (p *c20) Run(w *lib.Worker, idx int, r *lib.Rand) lib.Case {
 			o := validate.VerifBorrowResult()
 			mo := &mres{}
 			var em, wm []string
-			for j, k := 0, r.Range(0, 3); j < k; j++ {
-				m := c20Pool[r.Intn(len(c20Pool))]
-				if r.Bool() {
+			nmsg := r.Range(0, 3)
+			if wide && r.Bool() {
+				nmsg = r.Range(14, 40)
+			}
+			for j, k := 0, nmsg; j < k; j++ {
+				m := pool[r.Intn(len(pool))]
+				if j >= 12 && r.P(0.3) && len(em) > 0 {
+					m = em[r.Intn(len(em))] // report an early message again
+				}
+				if r.Bool() || j >= 12 && r.P(0.6) {
 					o.AddErrors(mkErr(r, m))
 					mo.errs = addSet(mo.errs, m)
 					em = append(em, m)
@@ -170,6 +189,11 @@ func (p *c20) Run(w *lib.Worker, idx int, r *lib.Rand) lib.Case {
 			for j, k := 0, r.Range(0, 3); j < k; j++ {
 				o.Inc()
 				mo.count++
+			}
+			// the operand itself is a Result like any other: judged against its own model before it is given away
+			if got, want := sut.Msgs(o.Errors), append([]string{}, mo.errs...); len(o.Errors) != len(mo.errs) || strings.Join(sortedCopy(got), "\x1f") != strings.Join(sortedCopy(want), "\x1f") || o.MatchCount != mo.count || len(o.Warnings) != len(mo.warns) {
+				c.Viol = &lib.Violation{What: fmt.Sprintf("step %d: a pooled result filled through AddErrors / AddWarnings / Inc holds errors %q warnings(%d) count %d, the ordered-set model says errors %q warnings(%d) count %d", s, got, len(o.Warnings), o.MatchCount, want, len(mo.warns), mo.count), Detail: trace}
+				return c
 			}
 			kind := []string{"Merge", "MergeAsErrors", "MergeAsWarnings"}[r.Intn(3)]
 			op = fmt.Sprintf("r%d.%s(pooled{errors:%q warnings:%q count:%d})", t, kind, em, wm, mo.count)
@@ -187,6 +211,9 @@ func (p *c20) Run(w *lib.Worker, idx int, r *lib.Rand) lib.Case {
 			}
 			mod[t].count += mo.count
 			pooledMerges++
+			if len(mo.errs) >= 16 || len(mo.warns) >= 16 {
+				pooledLong++
+			}
 			if mo.count > 0 || len(em)+len(wm) > 0 {
 				nontrivial = true
 			}
@@ -200,7 +227,7 @@ func (p *c20) Run(w *lib.Worker, idx int, r *lib.Rand) lib.Case {
 					es[j] = nil
 					continue
 				}
-				m := c20Pool[r.Intn(len(c20Pool))]
+				m := pool[r.Intn(len(pool))]
 				es[j] = mkErr(r, m)
 				msgs = append(msgs, m)
 			}
@@ -291,7 +318,7 @@ func (p *c20) Run(w *lib.Worker, idx int, r *lib.Rand) lib.Case {
 		c.Viol = &lib.Violation{What: fmt.Sprintf("pool discipline violated while pooled operands were merged through the public methods: %v", st.EventCounts), Detail: map[string]any{"operations": trace, "pool_events": st.Events}}
 		return c
 	}
-	c.Nums = map[string]int64{"pooled_operands_merged": int64(pooledMerges)}
+	c.Nums = map[string]int64{"pooled_operands_merged": int64(pooledMerges), "pooled_operands_with_16_or_more_messages_of_one_kind": int64(pooledLong)}
 	c.Hash = lib.Hash64([]byte(strings.Join(trace, ";")))
 	c.Nontrivial = nontrivial
 	c.Tags = []string{boolTag("nil-in-population", nilIdx >= 0)}
@@ -309,4 +336,10 @@ func (p *c20) Finish(a *lib.Aggregate) (broken []string) {
 		broken = append(broken, "no pooled operand was ever merged")
 	}
 	return
+}
+
+func sortedCopy(in []string) []string {
+	out := append([]string{}, in...)
+	sort.Strings(out)
+	return out
 }
